@@ -80,15 +80,34 @@ def run_main(conf, workdir, name="ladim.yaml"):
         logging.disable(logging.CRITICAL)
 
 
-def read_sparse(path):
-    """Read a sparse output file -> list of records {time, count, vars{name: list}}; plus pvars"""
+def _ref_offset(units):
+    """seconds from 2000-01-01 to the reference time of a 'seconds since ...' units string"""
+    import numpy as np
+
+    ref = np.datetime64(units.split("since")[1].strip().replace(" ", "T"), "s")
+    return float((ref - np.datetime64("2000-01-01T00:00:00", "s")) / np.timedelta64(1, "s"))
+
+
+def read_sparse(path, absolute=False):
+    """Read a sparse output file -> list of records {time, count, vars{name: list}}; plus pvars.
+    absolute=True: time and time-typed particle variables are decoded with their units attribute to seconds
+    after 2000-01-01 (files of runs with different reference times are then comparable)"""
     out = []
     with Dataset(path) as nc:
         nc.set_auto_mask(False)
         t = nc.variables["time"][:]
+        if absolute:
+            t = t + _ref_offset(nc.variables["time"].units)
         pc = nc.variables["particle_count"][:]
         ivars = [v for v in nc.variables if nc.variables[v].dimensions == ("particle_instance",)]
-        pvars = {v: nc.variables[v][:].tolist() for v in nc.variables if nc.variables[v].dimensions == ("particle",)}
+        pvars = {}
+        for v in nc.variables:
+            if nc.variables[v].dimensions == ("particle",):
+                a = nc.variables[v][:]
+                u = getattr(nc.variables[v], "units", "")
+                if absolute and "since" in u:
+                    a = a + _ref_offset(u)
+                pvars[v] = a.tolist()
         start = 0
         for k in range(len(t)):
             c = int(pc[k])
